@@ -101,6 +101,7 @@ def run_task(task):
         # completed path: model + native replay
         counter['n'] += 1
         nviol = len(e.path_viol)
+        expected_failed = sorted(set((v.label, v.sig) for v in e.path_viol if v.kind == 'fail'))
         for v in e.path_viol:
             _handle_violation(v)
         e.path_viol = []
@@ -121,9 +122,10 @@ def run_task(task):
             return
         _, nobs, nfailed, nlabels = r
         sobs = [(k, core.norm_obs(v)) for k, v in rec['obs']]
-        if nfailed:
+        if sorted(set((f[0], f[1]) for f in nfailed)) != expected_failed:
             res['mismatch'].append({'kind': 'native-failed-check', 'inputs': rec['inputs'],
-                                    'choices': rec['decisions'], 'detail': repr(nfailed)[:800]})
+                                    'choices': rec['decisions'],
+                                    'detail': 'native=%r expected=%r' % (nfailed, expected_failed)})
         elif sobs != nobs:
             res['mismatch'].append({'kind': 'observation', 'inputs': rec['inputs'], 'choices': rec['decisions'],
                                     'detail': 'sym=%r native=%r' % (sobs, nobs)})
@@ -184,6 +186,10 @@ def run_task(task):
     res['exports'] = exports
     res['wall_s'] = time.time() - t0
     return res
+
+
+def run_batch(tasks):
+    return [run_task(t) for t in tasks]
 
 
 # ---------------------------------------------------------------------------------------------------
@@ -271,20 +277,40 @@ def run_property(pid, tier, seed=0, only=None, jobs=None, verbose=False):
                       'max_depth': copts.get('split_depth')})
     results = []
     ctx = mp.get_context('spawn')
+    # heavy tasks first and alone, light ones in batches (per-task overhead dominates tiny cases)
+    tasks.sort(key=lambda t: -t['opts'].get('weight', 1))
+    batches = []
+    cur, curw = [], 0
+    bw = max(1, sum(t['opts'].get('weight', 1) for t in tasks) // (jobs * 6))
+    for t in tasks:
+        w = t['opts'].get('weight', 1)
+        if w >= bw or t.get('max_depth') is not None:
+            batches.append([t])
+            continue
+        cur.append(t)
+        curw += w
+        if curw >= bw:
+            batches.append(cur)
+            cur, curw = [], 0
+    if cur:
+        batches.append(cur)
     with cf.ProcessPoolExecutor(max_workers=jobs, mp_context=ctx, initializer=_worker_init,
                                 initargs=(repo,)) as ex:
-        pending = {ex.submit(run_task, t): t for t in tasks}
+        pending = {ex.submit(run_batch, b): b for b in batches}
         while pending:
             done, _ = cf.wait(list(pending), return_when=cf.FIRST_COMPLETED)
+            finished = []
             for fut in done:
-                t = pending.pop(fut)
+                b = pending.pop(fut)
                 try:
-                    r = fut.result()
+                    rs = fut.result()
                 except Exception:
-                    r = {'harness': t['harness'], 'case': t['case'], 'violations': [], 'mismatch': [],
-                         'errors': ['worker crashed: ' + traceback.format_exc()[-1500:]], 'replayed': 0,
-                         'native_labels': {}, 'samples': [], 'funcs': [], 'frontier': None,
-                         'stats': None, 'exports': [], 'wall_s': 0}
+                    rs = [{'harness': t['harness'], 'case': t['case'], 'violations': [], 'mismatch': [],
+                           'errors': ['worker crashed: ' + traceback.format_exc()[-1500:]], 'replayed': 0,
+                           'native_labels': {}, 'samples': [], 'funcs': [], 'frontier': None,
+                           'stats': None, 'exports': [], 'wall_s': 0} for t in b]
+                finished.extend(zip(b, rs))
+            for t, r in finished:
                 results.append(r)
                 if verbose:
                     st = r.get('stats') or {}
@@ -298,7 +324,7 @@ def run_property(pid, tier, seed=0, only=None, jobs=None, verbose=False):
                         nt = dict(t)
                         nt['max_depth'] = None
                         nt['prefixes'] = fr[i:i + chunk]
-                        pending[ex.submit(run_task, nt)] = nt
+                        pending[ex.submit(run_batch, [nt])] = [nt]
     return summarize(pid, tier, seed, mod, results, time.time() - t0, verbose)
 
 
@@ -375,6 +401,7 @@ def summarize(pid, tier, seed, mod, results, wall, verbose):
     lines = []
     new_viol = 0
     known_hits = 0
+    known_agg = {}
     os.makedirs(os.path.join(EVID, 'replay'), exist_ok=True)
     module = 'harnesses.%s' % pid.lower()
     for key, ent in sorted(viol.items()):
@@ -385,8 +412,9 @@ def summarize(pid, tier, seed, mod, results, wall, verbose):
         k = match_known(known, pid, ent['harness'], ent['label'], ent['sig'])
         if k is not None:
             known_hits += 1
-            lines.append('KNOWN-FINDING: property=%s %s [%s/%s/%s; %d paths]' % (
-                pid, k['what'], ent['harness'], ent['label'], ent['sig'], ent['count']))
+            agg = known_agg.setdefault(id(k), [k, 0, set()])
+            agg[1] += ent['count']
+            agg[2].add(ent['harness'])
             continue
         new_viol += 1
         h = hashlib.sha1(repr(key).encode()).hexdigest()[:10]
@@ -400,6 +428,9 @@ def summarize(pid, tier, seed, mod, results, wall, verbose):
         lines.append('VIOLATION property=%s replay=%s' % (pid, path))
         lines.append('  harness=%s label=%s sig=%s paths=%d detail=%s' % (
             ent['harness'], ent['label'], ent['sig'], ent['count'], str(ent['example']['detail'])[:300]))
+    for k, cnt, hs in known_agg.values():
+        lines.insert(0, 'KNOWN-FINDING: property=%s %s [label=%s sig=%s; %d paths in %s]' % (
+            pid, k['what'], k.get('label'), k.get('sig'), cnt, ','.join(sorted(hs))))
     for m in mismatches[:10]:
         errors.append('native replay mismatch (%s) in %s %s: %s' % (m['kind'], m['harness'], m['case'],
                                                                       m['detail'][:700]))
